@@ -362,7 +362,7 @@ def _chk_baf(args, res, old):
             up = old["above_half"] if old["above_half"] is not None else bool(np.median(f) > 0.5)
             m = 0.5 + np.abs(f - 0.5) if up else 0.5 - np.abs(f - 0.5)
             want = float(np.median(m))
-        if abs(res[k] - want) > 1e-9:
+        if not abs(res[k] - want) <= 1e-9:
             return "segment %r: BAF %r, expected median of the mirrored heterozygous frequencies %r (n=%d, above_half=%r, tumor_boost=%s)" % (
                 (s.chromosome, s.start, s.end), res[k], want, len(f), old["above_half"], old["tumor_boost"])
 
